@@ -164,8 +164,11 @@ class ExprBuilder:
 
     def order(self, o):
         x = self.b(o["e"], wrap=True)
+        self.nord = getattr(self, "nord", 0) + 1
         if o.get("desc"):
             x = x.descending()
+        elif self.nord % 3 == 0:
+            x = x.ascending()  # the explicit spelling of the default
         if o.get("nl") is True:
             x = x.nulls_last()
         elif o.get("nl") is False:
@@ -280,6 +283,12 @@ class ExprBuilder:
         kw = self.ctx(e)
         if op == "count_star":
             return pdt.count(**kw)
+        if op in ("rank", "dense_rank") and len(e.get("arr") or ()) == 1 and not e.get("flt"):
+            self.nrank = getattr(self, "nrank", 0) + 1
+            if self.nrank % 2:
+                # documented alias: <sort key>.rank(partition_by=...) is pdt.rank(arrange=<sort key>, partition_by=...)
+                key = kw["arrange"][0]
+                return getattr(key, op)(**({"partition_by": kw["partition_by"]} if "partition_by" in kw else {}))
         if op in ("row_number", "rank", "dense_rank"):
             return getattr(pdt, op)(**kw)
         x = self.b(a[0], wrap=True)
